@@ -182,4 +182,4 @@ def run(facts, rep, tier):
                    "%s: %s" % (short, "; ".join(probs)) if probs else "%s is only applied to <=64-bit scalar types" % short,
                    b.loc(bb))
     rep.analysed["narrow_reader_sites"] = n_sites
-    rep.floor("C10.W", "<=64-bit reader call sites in the evaluator slice", n_sites, 20)
+    rep.floor("C10.W", "<=64-bit reader call sites in the evaluator slice", n_sites, 8)
